@@ -52,6 +52,8 @@ def fork_call(fn, arg, timeout: float):
         try:
             os.close(rfd)
             faulthandler.enable()
+            if not os.environ.get('VERIF_CHILD_STDOUT'):
+                sys.stdout = open(os.devnull, 'w')  # the library prints diagnostics; results travel over the pipe
             faulthandler.dump_traceback_later(max(1.0, timeout * 0.9), exit=False)
             try:
                 res = fn(arg)
